@@ -4,7 +4,7 @@ import mworld
 META = {
     "engine": "mworld",
     "level": "model_checking",
-    "text": "RoundTrip is a stutter step of MutableWorld.tla; after every reachable edit history of scenarios 1-3 the real world's modifications are exported as YAML and applied to a fresh world over the same base, whose observation must equal the specification's eff (lookup with tags and geometry, search, enumeration, references).",
+    "text": "RoundTrip is a stutter step of MutableWorld.tla; after every reachable edit history of scenarios 1-3 the real world's modifications are exported as YAML and applied to a fresh world over the same base, whose complete observation (lookup with tags and geometry, search, enumeration, references) must equal the edited world's; an import that fails is a violation.",
     "note": 'Small scope (<= 13 features on a convex polygon, 3 tag keys, 2 values); self-crossing loops are never generated (validity unspecified in the vendored s2). Trusted: TLC, harness/obs, vh-world. Tag values are the strings x/y here; value-kind classes (strings that look like numbers, lat/lngs, IDs) are exercised by the C18 value-class cases.',
     "technique": "TLA+ spec (MutableWorld) model-checked by TLC; exported state graph replayed on the real worlds",
 }
